@@ -29,7 +29,7 @@ def time_grid(rng, tier, kind=None):
         n = int(rng.integers(3, nmax + 1))
         return [1990 + step * i for i in range(n)], "constant"
     if kind == "long":
-        n = int(rng.integers(100, 251))
+        n = int(rng.integers(100, 251)) if rng.random() < 0.5 else int(rng.integers(257, 541))  # on both sides of 256 and 512
         if rng.random() < 0.5:
             return [1850 + i for i in range(n)], "unit"
         steps = rng.choice([1, 1, 1, 2, 5], size=n - 1)
@@ -57,17 +57,33 @@ def time_grid(rng, tier, kind=None):
     return [int(x) for x in (1950 + np.concatenate(([0], np.cumsum(steps))))], "uneven"
 
 
-def make_config(fd, rng, tier, model=None, grid_kind=None, solvable=False, n_extra=None):
-    if grid_kind is None and rng.random() < 0.02:
-        grid_kind = "long"  # a few long series (100-250 steps): size-dependent paths, accumulated rounding
+def make_config(fd, rng, tier, model=None, grid_kind=None, solvable=False, n_extra=None, wide_p=0.0):
+    """wide_p: share of configurations with several hundred labels (for checks that can afford tables of 10^6-10^7 entries)"""
+    wide = False
+    if grid_kind is None:
+        r_ = rng.random()
+        if r_ < 0.02:
+            grid_kind = "long"  # a few long series (100-540 steps): size-dependent paths, accumulated rounding
+        elif r_ < 0.02 + wide_p:
+            wide = True  # ~100 years x several hundred labels: tables of 10^6-10^7 entries
     items, gclass = time_grid(rng, tier, grid_kind)
+    if wide:
+        n_w = int(rng.integers(70, 131))
+        steps = rng.choice([1, 1, 1, 2, 5], size=n_w - 1) if rng.random() < 0.5 else np.ones(n_w - 1, dtype=int)
+        items, gclass = [int(x) for x in (1900 + np.concatenate(([0], np.cumsum(steps))))], ("unit" if int(steps.max()) == 1 else "uneven")
     if len(items) > 60:
         n_extra = 0 if n_extra is None else min(n_extra, 1)
+    if wide:
+        n_extra = 1
     tl = "t" if rng.random() < 0.8 else "y"
     tdim = fd.Dimension(letter=tl, name="time" if tl == "t" else "year", items=list(items))
     n_extra = int(rng.integers(0, 3)) if n_extra is None else n_extra
     extra_letters = list(rng.permutation(["a", "b", "c"])[:n_extra])
     U = gen.universe(fd, {"a": 2, "b": 3, "c": 2})
+    if wide:
+        l_w = extra_letters[0]
+        n_lab = int(rng.integers(500, 901))
+        U[l_w] = fd.Dimension(letter=l_w, name=U[l_w].name, items=[f"{l_w}{q:04d}" for q in rng.permutation(n_lab)] if l_w != "b" else [int(q) for q in 1000 + rng.permutation(n_lab)])
     dims = fd.DimensionSet(dim_list=[tdim] + [U[l] for l in extra_letters])
     model = model or str(rng.choice(LM_NAMES))
     dtv = np.diff(np.array(items, dtype=float))
@@ -149,7 +165,8 @@ def project_by_label(full, all_letters, keep):
     return out if keep else float(full.flat[0])
 
 
-def build_lm(fd, cfg, dims=None):
+def build_lm(fd, cfg, dims=None, late=None):
+    """late: a list; the model is then built WITHOUT parameters and the keyword arguments for a later set_prms are put into it"""
     cls = getattr(fd, cfg["model"])
     kw = {}
     form = cfg.get("param_form", "labelled")
@@ -161,6 +178,9 @@ def build_lm(fd, cfg, dims=None):
             kw[pn] = float(np.asarray(vals))
         else:
             kw[pn] = fd.FlodymArray(dims=fd.DimensionSet(dim_list=list(pdims)), values=np.array(vals, dtype=float))
+    if late is not None:
+        late.append(kw)
+        kw = {}
     return cls(dims=dims if dims is not None else cfg["dims"], time_letter=cfg["tl"], inflow_at=cfg["inflow_at"], n_pts_per_interval=cfg["n_pts"], **kw)
 
 
@@ -568,6 +588,17 @@ def c17_case(rec, hub, rng, tier, which):
                         a_()
                     except Exception:
                         pass
+                if lm is not None and rng.random() < 0.6:
+                    # a setting the table builder refuses, noticed by a failing read or compute and corrected by the user
+                    good = live.lifetime_model.n_pts_per_interval
+                    live.lifetime_model.n_pts_per_interval = int(rng.choice([11, 12, 40]))
+                    hist[-1] = "error(table build refused, setting corrected)"
+                    for a_ in rng.permutation(3)[: int(rng.integers(1, 4))]:
+                        try:
+                            (lambda: live.lifetime_model.pdf, lambda: live.lifetime_model.sf, live.compute)[int(a_)]()
+                        except Exception:
+                            pass
+                    live.lifetime_model.n_pts_per_interval = good
             elif op == "read" and lm is not None:
                 live.lifetime_model.sf
                 live.lifetime_model.pdf
